@@ -289,9 +289,13 @@ def doc_cases(draw):
     zone = draw(st.sampled_from(ZONES))
     base = draw(st.one_of(st.integers(1_400_000_000, 1_700_000_000), st.sampled_from(DST_INSTANTS).map(lambda x: x - 7200)))
     span_dst = zone in DST_OF and draw(st.integers(0, 3)) == 0
+    repeated_hour = False
     if span_dst:
         # sessions that begin before a DST change of their own zone and end after it
         base = draw(st.sampled_from(DST_OF[zone])) - draw(st.integers(600, 7200))
+        if draw(st.integers(0, 2)) == 0:
+            repeated_hour = True
+            base = draw(st.sampled_from(DST_OF[zone])) - draw(st.integers(60, 1700))
     start_ms = (base - draw(st.sampled_from([0, 1, P - 1, P, 3 * P + 17, 86400]))) * 1000 + draw(st.sampled_from([0, 0, 1, 500, 999]))
     fit = draw(st.integers(0, 3)) == 0
     docs = []
@@ -302,6 +306,10 @@ def doc_cases(draw):
         stay = draw(st.one_of(st.sampled_from([P, 2 * P - 1, 2 * P + 1, 7 * P, 3600 * 5, 86400 * 2] + ([] if fit else [0, 1, 30, P - 1])), st.integers(P if fit else 0, 40 * P)))
         if span_dst:
             stay = draw(st.integers(7800, 6 * 3600))
+            if repeated_hour:
+                # plugged in during the hour before clocks go back, unplugged exactly one hour
+                # later: the same wall-clock reading twice
+                stay = 3600
         if fit:
             # the fit's domain is a stay of at least one period (DESIGN.md section 5)
             while (conn + stay) // P - conn // P < 1:
